@@ -742,11 +742,15 @@ def suite_filter_tables(rng, n, stats, kinds=None):
     return cases
 
 
-def gen_candset(rng, L, R, lk, rk, stats):
+def gen_candset(rng, L, R, lk, rk, stats, la=None):
     pairs = [(a, b) for a in L[lk] for b in R[rk]]
     c = rng.random()
     if not pairs or c < 0.05:
         sel = []
+    elif c < 0.25:
+        # small relative to the tables (len(ltable) + len(rtable) >= 2 * len(candset)): apply_matcher's UNCACHED token path
+        sel = rng.sample(pairs, rng.randint(1, max(1, min(len(pairs), (len(L) + len(R)) // 2))))
+        stats.hit('candset.small_uncached')
     elif c < 0.5:
         sel = rng.sample(pairs, rng.randint(1, len(pairs)))
     elif c < 0.8:
@@ -754,6 +758,18 @@ def gen_candset(rng, L, R, lk, rk, stats):
     else:
         sel = list(pairs)
         rng.shuffle(sel)
+    if len(sel) > 2 and rng.random() < 0.4:
+        # the order the filters emit: all pairs of one right record next to each other (left records in any order within a run)
+        order = {}
+        for p in sel:
+            order.setdefault(json.dumps(cell(p[1]), sort_keys=True), len(order))
+        sel = sorted(sel, key=lambda p: order[json.dumps(cell(p[1]), sort_keys=True)])
+        stats.hit('candset.grouped_by_right_key')
+        if la is not None and la in L.columns and rng.random() < 0.5:
+            # within a run, the rows whose left value is missing come first (any order of the cross product is a valid candset)
+            lmiss = {json.dumps(cell(k), sort_keys=True) for k, x in zip(L[lk], L[la]) if is_missing(x)}
+            sel = sorted(sel, key=lambda p: (order[json.dumps(cell(p[1]), sort_keys=True)], json.dumps(cell(p[0]), sort_keys=True) not in lmiss))
+            stats.hit('candset.grouped.missing_left_first')
     ids = list(range(len(sel)))
     if rng.random() < 0.3:
         ids = rng.sample(range(1000), len(sel))
@@ -900,7 +916,7 @@ def suite_apply_matcher(rng, n, stats):
                 L[la] = pd.Series([rng.choice([1990.0, 1991.5, 1993.0, np.nan]) for _ in range(len(L))], dtype='float64', index=L.index)
                 R[ra] = pd.Series([rng.choice([1990.0, 1991.5, 1993.0, np.nan]) for _ in range(len(R))], dtype='float64', index=R.index)
             stats.hit('apply_matcher.numeric_match_attr')
-        C, clk, crk = gen_candset(rng, L, R, lk, rk, stats)
+        C, clk, crk = gen_candset(rng, L, R, lk, rk, stats, la=la)
         L0, R0, la0, ra0 = L, R, la, ra
         L, R, lk, rk, la, ra, C, clk, crk, bad = malform(rng, stats, L, R, lk, rk, la, ra, C, clk, crk, numeric=False)
         log = []
@@ -1083,6 +1099,10 @@ def gen_column(rng, stats):
             s = pd.Series([rng.randint(-50, 10 ** rng.randint(1, 12)) for _ in range(n)], dtype='int64')
     elif kind == 'float_int':
         s = pd.Series([np.nan if rng.random() < nan_p else float(rng.randint(-5, 10 ** rng.randint(1, 9))) for _ in range(n)], dtype='float64')
+        if rng.random() < 0.25:
+            # whole numbers beyond the int64 range (20-digit identifiers read as floats): Python's int() is unbounded
+            s.iloc[rng.randrange(n)] = rng.choice([1e20, 2.0 ** 63, -2.0 ** 64, 1e22, 12345678901234567168.0, 2.0 ** 53, -9.3e18])
+            stats.hit('converter.float_int.beyond_int64')
     elif kind == 'float':
         s = pd.Series([np.nan if rng.random() < nan_p else rng.choice([1.5, 2.0, 0.1, 1e-7, 123456.789, 1e16, -3.25, 7.0]) for _ in range(n)],
                       dtype='float64')
@@ -1184,7 +1204,14 @@ def gen_profile_frame(rng, stats, big=False):
         n = rng.randint(13, 3000)          # more rows: percentages with many different two-decimal values
     cols = {}
     for i in range(rng.randint(1, 4)):
-        kind = rng.choice(['key', 'dups', 'missing', 'onedup', 'onemissing', 'float', 'mixednone', 'mixedtypes', 'mixedtypes', 'percent'])
+        kind = rng.choice(['key', 'dups', 'missing', 'onedup', 'onemissing', 'float', 'mixednone', 'mixedtypes', 'mixedtypes', 'percent', 'nullable'])
+        if kind == 'nullable' and not big:
+            # pandas' nullable extension dtypes hold pd.NA although their dtype.kind is that of an integer / boolean column
+            dt = rng.choice(['Int64', 'UInt8', 'boolean', 'Int32', 'string'])
+            pool = {'boolean': [True, False], 'string': ['a', 'b', 'c d']}.get(dt, list(range(0, 6)))
+            cols['c%d' % i] = pd.Series([None if rng.random() < 0.3 else rng.choice(pool) for _ in range(n)], dtype=dt)
+            stats.hit('profiler.col.nullable.' + dt)
+            continue
         if kind == 'key':
             v = list(range(n))
         elif kind == 'dups':
